@@ -76,7 +76,52 @@ def _decl_ops(rng, s, decls_of_session, cap):
     return {"s": s, "op": "int_array", "shape": shape, "lo": lo, "hi": hi}, [{"t": "i", "lo": lo, "hi": hi}] * n
 
 
+def generate_big(rng, tier):
+    """Programs too large for exhaustive enumeration (15-30 variables, wide domains, trees of up to
+    60 nodes).  Every constraint is made true under a hidden witness, so the program is known to be
+    satisfiable; a second family of sessions pins every variable to a value, which turns find_answer
+    into a direct evaluation of the constraints on one assignment."""
+    n = rng.randint(12, 30)
+    decls = []
+    for _ in range(n):
+        r = rng.random()
+        if r < 0.45:
+            decls.append({"t": "b"})
+        elif r < 0.9:
+            lo = rng.randint(-20, 20)
+            decls.append({"t": "i", "lo": lo, "hi": lo + rng.randint(0, 30)})
+        else:
+            lo = rng.choice(refsem.HUGE_BASES)
+            decls.append({"t": "i", "lo": lo, "hi": lo + rng.randint(0, 5)})
+    witness = refsem.gen_witness(rng, decls)
+    g = refsem.Gen(rng, decls)
+    g.wide_p = 0.15
+    cs = []
+    for _ in range(rng.randint(2, 8)):
+        c = refsem.gen_constraint(rng, g, rng.choice([5, 10, 20, 40, 60]), witness)
+        try:
+            ok = refsem.compile_one(c)(tuple(witness))
+        except Exception:
+            ok = False
+        if ok:
+            cs.append(c)
+    pins = [witness]
+    for _ in range(rng.randint(1, 4)):
+        if rng.random() < 0.5:
+            # a neighbour of the witness: differs in one or two variables
+            p = list(witness)
+            for _ in range(rng.randint(1, 2)):
+                i = rng.randrange(n)
+                p[i] = (not p[i]) if decls[i]["t"] == "b" else rng.randint(decls[i]["lo"], decls[i]["hi"])
+            pins.append(p)
+        else:
+            pins.append(refsem.gen_witness(rng, decls))
+    return {"prop": ID, "big": True, "decls": decls, "cs": cs, "pins": pins, "nest": rng.randint(0, 7), "backend": "z3" if rng.random() < 0.9 else "sim"}
+
+
 def generate(rng, tier, index):
+    if rng.random() < 0.08:
+        return generate_big(rng, tier)
     n_sessions = 2 if rng.random() < 0.3 else 1
     sessions = [{"backend": "sim" if rng.random() < 0.12 else "z3"} for _ in range(n_sessions)]
     decls = [[] for _ in sessions]
@@ -195,6 +240,18 @@ def decls_after(ops, n_sessions):
 
 def valid(sc):
     try:
+        if sc.get("big"):
+            decls = sc["decls"]
+            if not decls or not all(len(p) == len(decls) for p in sc["pins"]):
+                return False
+            for p in sc["pins"]:
+                for d, v in zip(decls, p):
+                    if d["t"] == "b":
+                        if type(v) is not bool:
+                            return False
+                    elif type(v) is not int or not d["lo"] <= v <= d["hi"]:
+                        return False
+            return all(refsem.valid(c, decls, "B") for c in sc["cs"])
         n = len(sc["sessions"])
         if n < 1:
             return False
@@ -311,7 +368,93 @@ def key_arg(vars_, ids, form):
     return (vs,)
 
 
+def run_big(sc) -> RunResult:
+    cspuz = core.import_cspuz()
+    from cspuz import expr as E
+
+    res = RunResult()
+    core.fresh_z3_context()
+    res.log("start", ID, sc.get("seed"), "big")
+    res.hit("scenario:big_program_with_witness_and_pins")
+    decls, cs = sc["decls"], sc["cs"]
+    ctx = peers.SimContext(res, policy={"name": "lexmin"}, product_cap=10**9)
+    backend = "z3"  # (the enumerating stub cannot serve programs of this size)
+    pred = refsem.compile_pred(cs)
+    each = [refsem.compile_one(c) for c in cs]
+    z3cap = {"cap": 16}
+
+    def session(extra):
+        s = cspuz.Solver()
+        vs = [s.bool_var() if d["t"] == "b" else s.int_var(d["lo"], d["hi"]) for d in decls]
+        b = refsem.Builder(vs)
+        if cs:
+            s.ensure(*_nest([b.build(c) for c in cs], sc.get("nest", 0)))
+        for i, v in extra:
+            s.ensure(vs[i] if v is True else ~vs[i] if v is False else vs[i] == v)
+        return s, vs
+
+    with peers.counted_z3(z3cap):
+        # (1) the program as posted: satisfiable by construction (the witness is a model)
+        try:
+            z3cap["calls"] = 0
+            s, vs = session([])
+            r = s.find_answer(backend=backend)
+            sols = [v.sol for v in vs]
+            res.steps += 1
+            res.log("big", "open", r)
+            if r is not True:
+                res.violate("C01/wrong-sat-verdict", f"find_answer returned {r!r} but the witness {sc['pins'][0]} satisfies all {len(cs)} constraints [z3 big]")
+            else:
+                bad = _check_assignment(decls, sols)
+                if bad:
+                    res.violate(bad[0], bad[1] + " [z3 big]")
+                elif not pred(tuple(sols)):
+                    res.violate("C01/model-violates-constraints", f"sol={sols} violates posted constraint(s) #{[j for j, p in enumerate(each) if not p(tuple(sols))]} [z3 big]")
+                else:
+                    res.nontrivial = True
+        except Exception as e:
+            res.violate("C01/unexpected-exception", f"big program: find_answer raised {type(e).__name__}: {str(e)[:200]}")
+        # (2) every variable pinned: find_answer evaluates the constraints on that assignment
+        for k, pin in enumerate(sc["pins"]):
+            want = bool(pred(tuple(pin)))
+            try:
+                z3cap["calls"] = 0
+                s, vs = session(list(enumerate(pin)))
+                r = s.find_answer(backend=backend)
+                res.steps += 1
+                res.log("big", "pin", k, r, want)
+                res.hit("pin:" + ("sat" if want else "unsat"))
+                if r is not want:
+                    res.violate(
+                        "C01/wrong-sat-verdict",
+                        f"all variables pinned to {pin}: find_answer returned {r!r}, the constraints evaluate to {want} (false ones: #{[j for j, p in enumerate(each) if not p(tuple(pin))]}) [z3 big]",
+                    )
+                elif r and [v.sol for v in vs] != list(pin):
+                    res.violate("C01/model-violates-constraints", f"all variables pinned to {pin} but sol={[v.sol for v in vs]} [z3 big]")
+            except Exception as e:
+                res.violate("C01/unexpected-exception", f"big program, pinned: find_answer raised {type(e).__name__}: {str(e)[:200]}")
+    res.states.add(hashlib.sha256(repr((decls, cs)).encode()).hexdigest()[:16])
+    return res
+
+
+def _check_assignment(decls, sols):
+    for i, (d, val) in enumerate(zip(decls, sols)):
+        if val is None:
+            return ("C01/sol-missing", f"variable #{i} has sol None after a True answer")
+        if d["t"] == "b":
+            if type(val) is not bool:
+                return ("C01/sol-wrong-type", f"boolean #{i} has sol {val!r} of type {type(val).__name__}")
+        else:
+            if type(val) is not int:
+                return ("C01/sol-wrong-type", f"integer #{i} has sol {val!r} of type {type(val).__name__}")
+            if not d["lo"] <= val <= d["hi"]:
+                return ("C01/sol-out-of-domain", f"integer #{i} has sol {val} outside [{d['lo']}, {d['hi']}]")
+    return None
+
+
 def run(sc) -> RunResult:
+    if sc.get("big"):
+        return run_big(sc)
     cspuz = core.import_cspuz()
     from cspuz import expr as E
 
@@ -548,7 +691,30 @@ def drop_var(sc, s, vid):
     return dict(sc, ops=ops) if removed else None
 
 
+def shrink_big(sc):
+    cs, pins, decls = sc["cs"], sc["pins"], sc["decls"]
+    for c2 in core.ddmin_list(cs):
+        yield dict(sc, cs=c2)
+    for p2 in core.ddmin_list(pins):
+        if p2:
+            yield dict(sc, pins=p2)
+    # drop the last variable when nothing refers to it
+    used = set()
+    for c in cs:
+        used |= {i for _, i in refsem.var_ids(c)}
+    if len(decls) > 1 and (len(decls) - 1) not in used:
+        yield dict(sc, decls=decls[:-1], pins=[p[:-1] for p in pins])
+    for j, c in enumerate(cs):
+        for sm in refsem.shrink_ast(c, "B"):
+            yield dict(sc, cs=cs[:j] + [sm] + cs[j + 1 :])
+    if sc.get("nest", 0):
+        yield dict(sc, nest=0)
+
+
 def shrink_candidates(sc):
+    if sc.get("big"):
+        yield from shrink_big(sc)
+        return
     ops = sc["ops"]
     # 1. fewer sessions
     if len(sc["sessions"]) > 1:
